@@ -487,25 +487,25 @@ theorem run_udp_single {c : Config} {z0 : Zone} {m : Msg} {rr0 r1 : RRset} {rest
 /-- **Already up to date**: the server's SOA carries the serial we asked about; with nothing else in the
 message the transfer is complete, nothing is raised and the zone is untouched (either variant, TCP or UDP). -/
 theorem uptodate_run (fix : Bool) (o : Name) (z0 : Zone) (d : Rdata) (udp : Bool) (m : Msg) (more : List Msg)
-    (hr : m.rcode = 0) (hq : m.question = []) (ha : m.answer = [soaRR o d]) :
+    (hh : headerErrOf o ixfrType m = none) (ha : m.answer = [soaRR o d]) :
     run fix ⟨some o, ixfrType, some d.serial, udp⟩ z0 (m :: more) = ⟨none, z0⟩ := by
-  simp [run, Inbound.init, runLoop, procMessage, headerErr, hr, hq, openTxn, procBody, ha, firstSoa, procAnswers,
+  simp [run, Inbound.init, runLoop, procMessage, headerErr, hh, openTxn, procBody, ha, firstSoa, procAnswers,
     udpCheck]
 
 /-- **UseTCP**: over UDP, a lone SOA with a newer serial is the "truncated" answer -/
 theorem udp_truncated_run (fix : Bool) (o : Name) (z0 : Zone) (d : Rdata) (b : Nat) (m : Msg) (more : List Msg)
-    (hr : m.rcode = 0) (hq : m.question = []) (ha : m.answer = [soaRR o d])
+    (hh : headerErrOf o ixfrType m = none) (ha : m.answer = [soaRR o d])
     (hs1 : d.serial ≠ b) (hs2 : serialLt d.serial b = false) :
     run fix ⟨some o, ixfrType, some b, true⟩ z0 (m :: more) = ⟨some .UseTCP, z0⟩ := by
-  simp [run, Inbound.init, runLoop, procMessage, headerErr, hr, hq, openTxn, procBody, ha, firstSoa, hs1, hs2]
+  simp [run, Inbound.init, runLoop, procMessage, headerErr, hh, openTxn, procBody, ha, firstSoa, hs1, hs2]
 
 /-- **Serial went backwards**: the server's SOA is behind the serial we hold (RFC 1982), whatever follows -/
 theorem backwards_run (fix : Bool) (o : Name) (z0 : Zone) (d : Rdata) (b : Nat) (udp : Bool) (m : Msg)
     (rest : List RRset) (more : List Msg)
-    (hr : m.rcode = 0) (hq : m.question = []) (ha : m.answer = soaRR o d :: rest)
+    (hh : headerErrOf o ixfrType m = none) (ha : m.answer = soaRR o d :: rest)
     (hs1 : d.serial ≠ b) (hs2 : serialLt d.serial b = true) :
     run fix ⟨some o, ixfrType, some b, udp⟩ z0 (m :: more) = ⟨some .SerialWentBackwards, z0⟩ := by
-  simp [run, Inbound.init, runLoop, procMessage, headerErr, hr, hq, openTxn, procBody, ha, firstSoa, hs1, hs2]
+  simp [run, Inbound.init, runLoop, procMessage, headerErr, hh, openTxn, procBody, ha, firstSoa, hs1, hs2]
 
 /-- One TCP message carrying the whole stream: the run is the flat run over its answer section, whatever
 the outcome. -/
